@@ -699,13 +699,13 @@ var translate = harness.Register(&harness.Facet[transCase]{
 		c := transCase{Src: m10.Render(tree), Form: form}
 		if rapid.IntRange(0, 9).Draw(t, "mutate") < 6 {
 			c.Src, c.Mutation = m10.Mutate(t, c.Src)
-			if rapid.IntRange(0, 3).Draw(t, "twice") == 0 {
+			if rapid.IntRange(0, 3).Draw(t, "twice") == 3 {
 				var m2 string
 				c.Src, m2 = m10.Mutate(t, c.Src)
 				c.Mutation += "; " + m2
 			}
 		}
-		if rapid.IntRange(0, 4).Draw(t, "badflags") == 0 {
+		if rapid.IntRange(0, 4).Draw(t, "badflags") == 4 {
 			c.Flags = rapid.SampledFrom(m10.BadFlags).Draw(t, "flags")
 		} else {
 			c.Flags = m10.GenFlags(t)
